@@ -22,6 +22,17 @@ Theorem C16_align_gap_spec :
 Proof. exact align_gap_spec. Qed.
 Print Assumptions C16_align_gap_spec.
 
+(* ... it is the LEAST such padding, so nothing at all when the running size already is a multiple (size 0 included) *)
+Theorem C16_align_gap_least :
+  forall size a p, 2 <= a -> 0 <= p -> (size + p) mod a = 0 -> align_gap size a <= p.
+Proof. exact align_gap_least. Qed.
+Print Assumptions C16_align_gap_least.
+
+Theorem C16_align_gap_at_boundary :
+  forall size a, 2 <= a -> size mod a = 0 -> align_gap size a = 0.
+Proof. exact align_gap_at_boundary. Qed.
+Print Assumptions C16_align_gap_at_boundary.
+
 (* the struct body never touches the output image, the address or the segment *)
 Theorem C16_struct_body_quiet :
   forall fuel name size s sz s',
